@@ -99,7 +99,7 @@ fn main() {
                        &dir, &mut trace, &mut sum);
         }
         "actor" => {
-            let w = std::sync::Arc::new(World::new(seed, 3, 3));
+            let w = std::sync::Arc::new(World::new(seed, 3, 7));
             let mut rng = Rng::new(seed);
             let scheds = args.kv.get("schedules").map(|p| read_schedules(p)).unwrap_or_default();
             actor::run(w.clone(), seed, &mut rng, scheds, args.num("n", 60) as usize, &dir, &mut trace, &mut sum);
@@ -129,7 +129,11 @@ fn main() {
             let w = World::new(seed, 3, 7);
             let mut rng = Rng::new(seed);
             let scheds = args.kv.get("schedules").map(|p| read_schedules(p)).unwrap_or_default();
-            storetx::run(&w, seed, &mut rng, scheds, args.num("n", 10) as usize, args.num("focus", 0) == 1, &dir, &mut trace, &mut sum);
+            if args.num("actor", 0) == 1 {
+                storetx::run_actor(&w, seed, &mut rng, args.num("n", 8) as usize, &dir, &mut trace, &mut sum);
+            } else {
+                storetx::run(&w, seed, &mut rng, scheds, args.num("n", 10) as usize, args.num("focus", 0) == 1, &dir, &mut trace, &mut sum);
+            }
         }
         "swarm" => {
             let w = World::new(seed, 3, 3);
